@@ -3008,7 +3008,11 @@ class Recipe:
                 step.operator == 'solution_from' or
                 (step.operator == 'solution' and step.frm[0] is not None and
                  step.frm[0].contents.get(substance, 0) > 0))
-            if step.operator in ('transfer', 'remove') or moved_by_a_solution_step:
+            # (... between destinations: a step that takes material from, or delivers it to, an object outside the destination
+            # set changes what the destinations hold for real - whatever a carboy of a kilolitre elsewhere rounds to)
+            among_destinations = step.to[0] is not None and step.to[0].name in dest_names and (
+                step.frm[0] is None or step.frm[0].name in dest_names)
+            if among_destinations and (step.operator in ('transfer', 'remove') or moved_by_a_solution_step):
                 # (a remove step moves material to the trash: what the object holds less is what the trash holds, up to
                 # the order the two were summed in - over 384 wells that is more than a stored digit)
                 def held(what):
